@@ -348,6 +348,18 @@ fn rejection_f64(d: &mut Draw) -> Outcome {
     }
     // the unbroken tuples are accepted
     must_not_panic!(perspective(Rad(fovy), a, n, f), "valid-perspective-panics", "perspective(valid)");
+    {
+        // ... also when the two planes are as close as two different floats can be (1..4 ulps apart, either order, at
+        // magnitudes where that is far more than the constructors' absolute "too close" margin)
+        let base = d.f64_log(2.0, 1e12);
+        let other = f64::from_bits(base.to_bits() + d.int(1, 4) as u64);
+        let (pn, pf) = if d.bool() { (base, other) } else { (other, base) };
+        must_not_panic!(cgmath::perspective(Rad(fovy), a, pn, pf), "valid-perspective-panics", format!("perspective(near = {:e}, far = {:e}), planes a few ulps apart", pn, pf));
+        must_not_panic!(cgmath::frustum(l, r, b, t, pn.min(pf), pn.max(pf)), "valid-frustum-panics", format!("frustum(near = {:e}, far = {:e}), planes a few ulps apart", pn.min(pf), pn.max(pf)));
+        must_not_panic!(cgmath::ortho(l, r, b, t, pn, pf), "valid-ortho-panics", format!("ortho(near = {:e}, far = {:e})", pn, pf));
+        let pf32 = f32::from_bits((base as f32).to_bits() + d.int(1, 4) as u32);
+        must_not_panic!(cgmath::perspective(Rad(fovy as f32), a as f32, base as f32, pf32), "valid-perspective-panics-f32", format!("perspective::<f32>(near = {:e}, far = {:e}), planes a few ulps apart", base as f32, pf32));
+    }
     must_not_panic!(frustum(l, r, b, t, n, f), "valid-frustum-panics", "frustum(valid)");
     must_not_panic!(planar(Rad(fovy), a, h, n, f), "valid-planar-panics", "planar(valid)");
     let cls: &'static str = match which {
@@ -448,7 +460,7 @@ pub fn property() -> Property {
         ("frustum-left>right", 20), ("frustum-bottom>top", 20), ("frustum-near>far", 20),
         ("planar-fovy<=-pi", 20), ("planar-fovy>=pi", 20), ("planar-height<0", 20), ("planar-aspect=0", 20), ("planar-near=far", 20), ("planar-focal-between", 20),
     ];
-    add!("rejection-f64", "f64", rejection_f64, 8000, 400_000, 64, REJ, "a valid tuple with exactly one precondition broken; all 15 reasons required");
+    add!("rejection-f64", "f64", rejection_f64, 8000, 400_000, 80, REJ, "a valid tuple with exactly one precondition broken; all 15 reasons required");
     Property {
         id: "C10",
         title: "Projections map the view volume onto the clip cube and reject bad parameters",
